@@ -484,7 +484,9 @@ impl<W: 'static, R: 'static, T: 'static> XSequence<W, R, T> {
                 items.swap(piv_idx, right);
                 items[right].clone()
             };
-            for j in left..=right {
+            // (the pivot itself, at `right`, is not compared: a comparator that calls it smaller than itself
+            // would push `ret` past `right`)
+            for j in left..right {
                 let c = forward_err!(cmp(items[j].clone(), pivot.clone())?);
                 if c == -1 {
                     items.swap(j, ret);
